@@ -1,4 +1,94 @@
 import Ptn.C19.Model
+import Ptn.C19.Spec
+import Ptn.C19.Lemmas
 /-! Property theorems for C19. Only property theorems and non-vacuity examples live here. -/
 namespace Ptn.C19
+
+/-! ### Grid neighbour pairs (`_find_nn_pairs`) -/
+
+/-- For every grid size, every unordered pair of cells occurs in the generated list exactly once (in one
+    of its two orientations) when both cells lie in the grid and are horizontally or vertically
+    adjacent, and does not occur at all otherwise. -/
+theorem nn_pairs_grid (rows cols : Nat) (a b : Cell) :
+    (nnPairs rows cols).count (a, b) + (nnPairs rows cols).count (b, a) =
+      if InGrid rows cols a ∧ InGrid rows cols b ∧ Adjacent a b then 1 else 0 := by
+  rw [(nodup_nnPairs rows cols).count, (nodup_nnPairs rows cols).count]
+  simp only [mem_nnPairs]
+  obtain ⟨a1, a2⟩ := a
+  obtain ⟨b1, b2⟩ := b
+  by_cases hc : InGrid rows cols (a1, a2) ∧ InGrid rows cols (b1, b2) ∧ Adjacent (a1, a2) (b1, b2)
+  · rw [if_pos hc]
+    simp only [InGrid, Adjacent, Prod.mk.injEq] at hc ⊢
+    split <;> split <;> omega
+  · rw [if_neg hc]
+    simp only [InGrid, Adjacent, Prod.mk.injEq] at hc ⊢
+    split <;> split <;> omega
+
+/-- The orientation is the documented one: first the cell, then its lower or right neighbour. -/
+theorem nn_pairs_grid_mem (rows cols : Nat) (a b : Cell) :
+    (a, b) ∈ nnPairs rows cols ↔
+      InGrid rows cols a ∧ InGrid rows cols b ∧ (b = (a.1 + 1, a.2) ∨ b = (a.1, a.2 + 1)) :=
+  mem_nnPairs rows cols a b
+
+example : nnPairs 2 3 =
+    [((0,0),(1,0)), ((0,0),(0,1)), ((0,1),(1,1)), ((0,1),(0,2)), ((0,2),(1,2)), ((1,0),(1,1)),
+     ((1,1),(1,2))] := by decide
+
+/-! ### Ising term lists (`_abstract_ising_model`) -/
+
+/-- For every tree and every dict order of its `TreeStructure` (any permutation of the pre-order
+    entries; child lists as in the tree) the generated term multiset is exactly one field term
+    `(-1, ext_magn, {i: B})` per node and one coupling term `(-1, coupling, {i: A, j: A})` per edge
+    `(parent i, child j)`: the formal sum `-J Σ_<ij> A_i A_j - g Σ_i B_i`. -/
+theorem ising_terms (t : RTree) (flat : List (Nat × List Nat)) (h : flat.Perm t.flat) :
+    (isingTree flat).Perm (t.ids.map fieldTerm ++ t.edges.map couplingTerm) := by
+  rw [isingTree_eq, ← flat_ids t, ← flat_edges t]
+  refine List.Perm.append ((h.map _).map _) (List.Perm.map _ ?_)
+  exact List.Perm.flatMap_right _ h
+
+/-- In pre-order dict order even the term *list* is the specified one. -/
+theorem ising_terms_preorder (t : RTree) :
+    isingTree t.flat = t.ids.map fieldTerm ++ t.edges.map couplingTerm := by
+  rw [isingTree_eq, flat_ids, flat_edges]
+
+example : isingTree (RTree.node 0 [.node 2 [.node 3 []], .node 1 []]).flat =
+    [fieldTerm 0, fieldTerm 2, fieldTerm 3, fieldTerm 1,
+     couplingTerm (0, 2), couplingTerm (0, 1), couplingTerm (2, 3)] := by decide
+
+/-- Pair-list input: one coupling term per listed pair (in order) and one field term for every site
+    that occurs in some pair - and for no other site. -/
+theorem ising_pairs_terms {α : Type} [DecidableEq α] (pairs : List (α × α)) :
+    ∃ sites : List α, isingPairs pairs = sites.map fieldTerm ++ pairs.map couplingTerm ∧
+      sites.Nodup ∧ ∀ s, s ∈ sites ↔ ∃ pr ∈ pairs, s = pr.1 ∨ s = pr.2 := by
+  refine ⟨_, isingPairs_eq pairs, nodup_dedup _, ?_⟩
+  intro s
+  rw [mem_dedup]
+  simp only [List.mem_flatMap, List.mem_cons, List.not_mem_nil, or_false]
+
+/-- 2-D builder, partial: on every grid with at least two cells the terms are one field term per cell
+    and one coupling term per neighbour pair of `nn_pairs_grid`.  (The restriction is necessary:
+    see `ising_grid_1x1_empty`.) -/
+theorem ising_grid_terms_partial (rows cols : Nat) (h : 2 ≤ rows * cols) :
+    ∃ sites : List Cell,
+      isingGrid rows cols = sites.map fieldTerm ++ (nnPairs rows cols).map couplingTerm ∧
+      sites.Nodup ∧ ∀ c, c ∈ sites ↔ InGrid rows cols c := by
+  obtain ⟨sites, h1, h2, h3⟩ := ising_pairs_terms (nnPairs rows cols)
+  refine ⟨sites, h1, h2, ?_⟩
+  intro c
+  rw [h3]
+  constructor
+  · rintro ⟨⟨a, b⟩, hp, hc⟩
+    have := (mem_nnPairs rows cols a b).1 hp
+    rcases hc with rfl | rfl
+    · exact this.1
+    · exact this.2.1
+  · exact cell_in_some_pair rows cols h c
+
+example : (2 : Nat) ≤ 1 * 2 := by decide
+
+/-- Witness that the full statement is false of the code (finding F-C19a): on the 1 x 1 grid the
+    builder produces no term at all although the cell `(0, 0)` lies in the grid and the documented
+    sum contains its field term. -/
+theorem ising_grid_1x1_empty : isingGrid 1 1 = [] ∧ InGrid 1 1 (0, 0) := by decide
+
 end Ptn.C19
